@@ -484,6 +484,160 @@ func catalogue() []corruption {
 			}
 			return false
 		}},
+		{"exit/of-exiting-or-inactive-validator", true, func(s *sim, r *blockRefs, pre *stateBox) bool {
+			// a correctly signed exit of a validator whose exit is already initiated, or that is not active yet
+			if uint64(len(*r.exits)) >= uint64(s.w.spec.MAX_VOLUNTARY_EXITS) {
+				return false
+			}
+			epoch := s.w.epochOf(uint64(*r.slot))
+			vals, _ := pre.st.Validators()
+			n, _ := vals.ValidatorCount()
+			for v := uint64(0); v < n; v++ {
+				val, _ := vals.Validator(common.ValidatorIndex(v))
+				ac, _ := val.ActivationEpoch()
+				ex, _ := val.ExitEpoch()
+				ki := s.w.keyOf(pre.st, common.ValidatorIndex(v))
+				exiting := uint64(ex) != farFuture && uint64(ex) > epoch && uint64(ac) <= epoch
+				notYet := uint64(ac) > epoch
+				if ki < 0 || !(exiting || notYet) {
+					continue
+				}
+				f, _ := pre.st.Fork()
+				exm := phase0.VoluntaryExit{Epoch: common.Epoch(epoch), ValidatorIndex: common.ValidatorIndex(v)}
+				dom := domainFor(f, s.w.gvr, common.DOMAIN_VOLUNTARY_EXIT, common.Epoch(epoch))
+				if s.w.forkIndexAt(epoch) >= 4 {
+					dom = computeDomain(common.DOMAIN_VOLUNTARY_EXIT, s.w.spec.CAPELLA_FORK_VERSION, s.w.gvr)
+				}
+				*r.exits = append(append(phase0.VoluntaryExits(nil), *r.exits...), phase0.SignedVoluntaryExit{Message: exm, Signature: s.w.keys.sign(ki, signingRoot(exm.HashTreeRoot(tree.GetHashFn()), dom))})
+				return true
+			}
+			return false
+		}},
+		{"proposer-slashing/of-slashed-validator", true, func(s *sim, r *blockRefs, pre *stateBox) bool {
+			// valid conflicting headers of a validator that is already slashed (and not yet withdrawable)
+			if uint64(len(*r.ps)) >= uint64(s.w.spec.MAX_PROPOSER_SLASHINGS) {
+				return false
+			}
+			epoch := s.w.epochOf(uint64(*r.slot))
+			vals, _ := pre.st.Validators()
+			n, _ := vals.ValidatorCount()
+			for v := uint64(0); v < n; v++ {
+				val, _ := vals.Validator(common.ValidatorIndex(v))
+				sl, _ := val.Slashed()
+				ki := s.w.keyOf(pre.st, common.ValidatorIndex(v))
+				if !sl || ki < 0 {
+					continue
+				}
+				f, _ := pre.st.Fork()
+				mk := func(tag uint64) common.SignedBeaconBlockHeader {
+					h := common.BeaconBlockHeader{Slot: *r.slot, ProposerIndex: common.ValidatorIndex(v), ParentRoot: fnvRoot("sps", tag)}
+					dom := domainFor(f, s.w.gvr, common.DOMAIN_BEACON_PROPOSER, common.Epoch(epoch))
+					return common.SignedBeaconBlockHeader{Message: h, Signature: s.w.keys.sign(ki, signingRoot(h.HashTreeRoot(tree.GetHashFn()), dom))}
+				}
+				*r.ps = append(append(phase0.ProposerSlashings(nil), *r.ps...), phase0.ProposerSlashing{SignedHeader1: mk(1), SignedHeader2: mk(2)})
+				return true
+			}
+			return false
+		}},
+		{"proposer-slashing/two-different-proposers", true, func(s *sim, r *blockRefs, pre *stateBox) bool {
+			// two validly signed headers of the same slot by two DIFFERENT proposers are no evidence against either
+			if uint64(len(*r.ps)) >= uint64(s.w.spec.MAX_PROPOSER_SLASHINGS) {
+				return false
+			}
+			epoch := s.w.epochOf(uint64(*r.slot))
+			vals, _ := pre.st.Validators()
+			n, _ := vals.ValidatorCount()
+			var pair []uint64
+			for v := uint64(0); v < n && len(pair) < 2; v++ {
+				val, _ := vals.Validator(common.ValidatorIndex(v))
+				sl, _ := val.Slashed()
+				wd, _ := val.WithdrawableEpoch()
+				ac, _ := val.ActivationEpoch()
+				if sl || uint64(ac) > epoch || uint64(wd) <= epoch || s.w.keyOf(pre.st, common.ValidatorIndex(v)) < 0 || common.ValidatorIndex(v) == *r.proposer {
+					continue
+				}
+				pair = append(pair, v)
+			}
+			if len(pair) < 2 {
+				return false
+			}
+			f, _ := pre.st.Fork()
+			mk := func(v uint64, tag uint64) common.SignedBeaconBlockHeader {
+				h := common.BeaconBlockHeader{Slot: *r.slot, ProposerIndex: common.ValidatorIndex(v), ParentRoot: fnvRoot("tdp", tag)}
+				dom := domainFor(f, s.w.gvr, common.DOMAIN_BEACON_PROPOSER, common.Epoch(epoch))
+				return common.SignedBeaconBlockHeader{Message: h, Signature: s.w.keys.sign(s.w.keyOf(pre.st, common.ValidatorIndex(v)), signingRoot(h.HashTreeRoot(tree.GetHashFn()), dom))}
+			}
+			*r.ps = append(append(phase0.ProposerSlashings(nil), *r.ps...), phase0.ProposerSlashing{SignedHeader1: mk(pair[0], 1), SignedHeader2: mk(pair[1], 2)})
+			return true
+		}},
+		{"attester-slashing/of-slashed-validators-only", true, func(s *sim, r *blockRefs, pre *stateBox) bool {
+			// a validly signed double vote whose only common attester is already slashed: nobody is slashed by it
+			if uint64(len(*r.as)) >= uint64(s.w.spec.MAX_ATTESTER_SLASHINGS) {
+				return false
+			}
+			epoch := s.w.epochOf(uint64(*r.slot))
+			vals, _ := pre.st.Validators()
+			n, _ := vals.ValidatorCount()
+			for v := uint64(0); v < n; v++ {
+				val, _ := vals.Validator(common.ValidatorIndex(v))
+				sl, _ := val.Slashed()
+				ki := s.w.keyOf(pre.st, common.ValidatorIndex(v))
+				if !sl || ki < 0 {
+					continue
+				}
+				f, _ := pre.st.Fork()
+				mk := func(tag uint64) phase0.IndexedAttestation {
+					d := phase0.AttestationData{Slot: *r.slot, BeaconBlockRoot: fnvRoot("sas", tag), Target: common.Checkpoint{Epoch: common.Epoch(epoch), Root: fnvRoot("sas-t", tag)}}
+					dom := domainFor(f, s.w.gvr, common.DOMAIN_BEACON_ATTESTER, common.Epoch(epoch))
+					return phase0.IndexedAttestation{AttestingIndices: common.CommitteeIndices{common.ValidatorIndex(v)}, Data: d, Signature: s.w.keys.signAgg([]int{ki}, signingRoot(d.HashTreeRoot(tree.GetHashFn()), dom))}
+				}
+				*r.as = append(append(phase0.AttesterSlashings(nil), *r.as...), phase0.AttesterSlashing{Attestation1: mk(1), Attestation2: mk(2)})
+				return true
+			}
+			return false
+		}},
+		{"attestation/target-epoch-1", true, func(s *sim, r *blockRefs, _ *stateBox) bool {
+			if len(*r.atts) == 0 || (*r.atts)[0].Data.Target.Epoch == 0 {
+				return false
+			}
+			a := append(phase0.Attestations(nil), *r.atts...)
+			a[0].Data.Target.Epoch--
+			*r.atts = a
+			return true
+		}},
+		{"randao/signed-by-another-validator", true, func(s *sim, r *blockRefs, pre *stateBox) bool {
+			other := (*r.proposer + 1) % common.ValidatorIndex(s.cfg.Validators)
+			ki := s.w.keyOf(pre.st, other)
+			if ki < 0 {
+				return false
+			}
+			f, _ := pre.st.Fork()
+			epoch := common.Epoch(s.w.epochOf(uint64(*r.slot)))
+			*r.randao = s.w.keys.sign(ki, signingRoot(epoch.HashTreeRoot(tree.GetHashFn()), domainFor(f, s.w.gvr, common.DOMAIN_RANDAO, epoch)))
+			return true
+		}},
+		{"bls-change/of-a-validator-with-execution-credentials", true, func(s *sim, r *blockRefs, pre *stateBox) bool {
+			if r.changes == nil || uint64(len(*r.changes)) >= uint64(s.w.spec.MAX_BLS_TO_EXECUTION_CHANGES) {
+				return false
+			}
+			vals, _ := pre.st.Validators()
+			n, _ := vals.ValidatorCount()
+			for v := uint64(0); v < n; v++ {
+				val, _ := vals.Validator(common.ValidatorIndex(v))
+				wc, _ := val.WithdrawalCredentials()
+				ki := s.w.keyOf(pre.st, common.ValidatorIndex(v))
+				if ki < 0 || wc[0] != common.ETH1_ADDRESS_WITHDRAWAL_PREFIX {
+					continue
+				}
+				ch := common.BLSToExecutionChange{ValidatorIndex: common.ValidatorIndex(v), FromBLSPubKey: s.w.keys.pub[ki]}
+				ch.ToExecutionAddress[3] = 0x77
+				dom := computeDomain(common.DOMAIN_BLS_TO_EXECUTION_CHANGE, s.w.spec.GENESIS_FORK_VERSION, s.w.gvr)
+				sc := common.SignedBLSToExecutionChange{BLSToExecutionChange: ch, Signature: s.w.keys.sign(ki, signingRoot(ch.HashTreeRoot(tree.GetHashFn()), dom))}
+				*r.changes = append(append(common.SignedBLSToExecutionChanges(nil), *r.changes...), sc)
+				return true
+			}
+			return false
+		}},
 		{"attester-slashing/signature", true, func(s *sim, r *blockRefs, _ *stateBox) bool {
 			if len(*r.as) == 0 {
 				return false
